@@ -78,7 +78,7 @@ Num(l, i, n) == IF n = 0 THEN 0 ELSE Num(l, i, n - 1) * 10 + DigVal(l[i + n - 1]
 \* blocks and frames share one record shape
 \*  k: doc quote list item para h hr fence icode html | a, b: numbers | m: marker character
 \*  ch: finished children | text: lines of text / code | s, e: first and last source line
-Blk(k, n) == [k |-> k, ch |-> <<>>, text |-> <<>>, a |-> 0, b |-> 0, m |-> "", info |-> <<>>, defs |-> <<>>, s |-> n, e |-> n]
+Blk(k, n) == [k |-> k, ch |-> <<>>, text |-> <<>>, a |-> 0, b |-> 0, m |-> "", info |-> <<>>, defs |-> <<>>, occ |-> {}, s |-> n, e |-> n]
 Containers == {"doc", "quote", "list", "item"}
 Top(st) == st[Len(st)]
 
@@ -143,9 +143,14 @@ Fin(f) == IF f.k \in Containers /\ f.ch # <<>> THEN [f EXCEPT !.e = Max(f.e, f.c
 \* definitions only disappears) and hands the definitions found in it upwards, in document order
 Pop(st) == LET n == Len(st)
                f == Fin(st[n])
+               gone == f.k = "para" /\ f.text = <<>>
            IN [i \in 1..(n - 1) |->
-                 IF i = n - 1 THEN [st[i] EXCEPT !.ch = IF f.k = "para" /\ f.text = <<>> THEN @ ELSE Append(@, [f EXCEPT !.defs = <<>>]),
-                                                 !.defs = @ \o f.defs]
+                 IF i = n - 1 THEN [st[i] EXCEPT !.ch = IF gone THEN @ ELSE Append(@, [f EXCEPT !.defs = <<>>, !.occ = {}]),
+                                                 !.defs = @ \o f.defs,
+                                                 \* the lines of a paragraph that disappears are not blank lines (5.3 counts blank lines)
+                                                 !.occ = @ \cup f.occ \cup (IF gone THEN f.s..f.e ELSE {}),
+                                                 \* remember that a list item held such a paragraph (see Ambig)
+                                                 !.b = IF gone /\ st[i].k = "item" THEN 1 ELSE @]
                  ELSE st[i]]
 RECURSIVE CloseTo(_, _)
 CloseTo(st, m) == IF Len(st) > m THEN CloseTo(Pop(st), m) ELSE st
@@ -331,6 +336,9 @@ RECURSIVE Join(_)
 Join(ss) == IF ss = <<>> THEN "" ELSE Head(ss) \o Join(Tail(ss))
 Esc(c) == CASE c = ">" -> "&gt;" [] c = "<" -> "&lt;" [] c = "&" -> "&amp;" [] c = "\"" -> "&quot;" [] OTHER -> c
 EscLine(cells) == LET l == Unexpand(cells) IN Join([i \in 1..Len(l) |-> Esc(l[i])])
+\* destinations are percent-encoded outside the URL-safe characters (as both reference implementations do)
+UrlEsc(c) == CASE c = "[" -> "%5B" [] c = "]" -> "%5D" [] c = "`" -> "%60" [] c = ">" -> "%3E" [] c = "<" -> "%3C" [] c = "\"" -> "%22" [] c = "&" -> "&amp;" [] OTHER -> c
+UrlLine(l) == Join([i \in 1..Len(l) |-> UrlEsc(l[i])])
 \* inline content: text, and shortcut reference links [label] for the labels defined in the document
 \* (6.3; the first definition of a label wins)
 Defined(refs, label) == \E k \in 1..Len(refs) : refs[k].label = label
@@ -341,10 +349,10 @@ InlineFrom(l, i, refs) ==
   ELSE LET e == LabelEnd(Rest(l, i)) IN
        IF l[i] = "[" /\ e > 0 /\ Defined(refs, SubSeq(l, i + 1, i + e - 2)) /\ At(l, i + e) \notin {"[", "("}
        THEN LET rf == RefOf(refs, SubSeq(l, i + 1, i + e - 2)) IN
-            "<a href=\"" \o EscLine(rf.dest) \o "\"" \o (IF rf.title = <<>> THEN "" ELSE " title=\"" \o EscLine(rf.title) \o "\"") \o ">"
+            "<a href=\"" \o UrlLine(rf.dest) \o "\"" \o (IF rf.title = <<>> THEN "" ELSE " title=\"" \o EscLine(rf.title) \o "\"") \o ">"
             \o EscLine(rf.label) \o "</a>" \o InlineFrom(l, i + e, refs)
        ELSE Esc(l[i]) \o InlineFrom(l, i + 1, refs)
-InlineLine(cells, refs) == InlineFrom(Unexpand(cells), 1, refs)
+InlineLine(cells, env) == InlineFrom(Unexpand(cells), 1, env.defs)
 RECURSIVE JoinLines(_, _)
 JoinLines(t, refs) == IF t = <<>> THEN "" ELSE IF Len(t) = 1 THEN InlineLine(t[1], refs) ELSE InlineLine(t[1], refs) \o "\n" \o JoinLines(Tail(t), refs)
 RECURSIVE CodeLines(_)
@@ -357,9 +365,12 @@ RECURSIVE NumStr(_)
 NumStr(n) == IF n < 10 THEN DigStr(n) ELSE NumStr(n \div 10) \o DigStr(n % 10)
 
 \* 5.3
-Loose(b) == \E i \in 1..Len(b.ch) :
-              \/ i < Len(b.ch) /\ b.ch[i].e + 1 < b.ch[i + 1].s
-              \/ \E j \in 1..(Len(b.ch[i].ch) - 1) : b.ch[i].ch[j].e + 1 < b.ch[i].ch[j + 1].s
+\* a blank line lies between x and y: a line after x and before y that belongs to no block
+\* (lines of a paragraph that consisted of definitions only are occupied)
+Gap(x, y, occ) == \E n \in (x.e + 1)..(y.s - 1) : n \notin occ
+Loose(b, occ) == \E i \in 1..Len(b.ch) :
+              \/ i < Len(b.ch) /\ Gap(b.ch[i], b.ch[i + 1], occ)
+              \/ \E j \in 1..(Len(b.ch[i].ch) - 1) : Gap(b.ch[i].ch[j], b.ch[i].ch[j + 1], occ)
 
 \* The renderer of the reference implementation: a sequence of pieces, CR = "a line ending unless the
 \* output already ends in one" (cr() of commonmark.js); P(s) is text that does not end in a line ending.
@@ -377,7 +388,7 @@ HtmlBlk(b, tight, refs) ==
                          \o CodeLines(b.text) \o "</code></pre>"), CR>>
     [] b.k = "html" -> <<CR, P(RawLines(b.text)), CR>>
     [] b.k = "quote" -> <<CR, P("<blockquote>"), CR>> \o Html(b.ch, FALSE, refs) \o <<CR, P("</blockquote>"), CR>>
-    [] b.k = "list" -> LET t == ~Loose(b)
+    [] b.k = "list" -> LET t == ~Loose(b, refs.occ)
                            open == IF b.b = 0 THEN "<ul>" ELSE IF b.a = 1 THEN "<ol>" ELSE "<ol start=\"" \o NumStr(b.a) \o "\">"
                        IN <<CR, P(open), CR>>
                           \o Flat([i \in 1..Len(b.ch) |-> <<P("<li>")>> \o Html(b.ch[i].ch, t, refs) \o <<P("</li>"), CR>>])
@@ -388,7 +399,8 @@ RECURSIVE Out(_, _)
 Out(ps, nl) == IF ps = <<>> THEN ""
                ELSE IF Head(ps).cr THEN (IF nl THEN "" ELSE "\n") \o Out(Tail(ps), TRUE)
                ELSE Head(ps).s \o Out(Tail(ps), IF Head(ps).s = "" THEN nl ELSE FALSE)
-Render(d) == Out(Html(d.ch, FALSE, d.defs), TRUE)   \* d.defs: every definition of the document, in document order
+\* d.defs: every definition of the document, in document order; d.occ: lines of vanished paragraphs
+Render(d) == Out(Html(d.ch, FALSE, [defs |-> d.defs, occ |-> d.occ]), TRUE)
 
 \* paragraph or heading text that the inline rules would not leave literal: two backtick runs in one text
 RECURSIVE Ambig(_)
@@ -396,6 +408,7 @@ Ambig(bs) == \E i \in 1..Len(bs) :
    \/ bs[i].k \in {"para", "h"} /\ Cardinality({x \in 1..Len(bs[i].text) : \E y \in 1..Len(bs[i].text[x]) : bs[i].text[x][y] = "`"}) >= 2
    \/ bs[i].k \in {"para", "h"} /\ \E x \in 1..Len(bs[i].text) : \E y \in 1..Len(bs[i].text[x]) : bs[i].text[x][y] \in {"*", "_", "<", "&", "\\", "!"}
    \/ bs[i].k = "html" /\ bs[i].a <= 5 /\ bs[i].b = 0 /\ bs[i].text[Len(bs[i].text)] = <<>>   \* unclosed, ends in a blank line: the reference implementations disagree on looseness
+   \/ bs[i].k = "item" /\ bs[i].b = 1 /\ bs[i].ch # <<>>   \* an item that held a definitions-only paragraph next to other blocks: whether the blank line beside it makes the list loose is read differently (the definition is a leaf block of the item in 4.7, invisible to both reference implementations)
    \/ bs[i].k \in Containers /\ Ambig(bs[i].ch)
 
 ----------------------------------------------------------------------------
@@ -487,8 +500,9 @@ Respell(raw) == LET l == Expand(raw) IN
   Unexpand([i \in 1..Len(l) |->
      IF l[i] \in {"\t", "\t+"} /\ (PrevNonSp(l, i) \in MarkerEnd \/ NextNonSp(l, i) \in MarkerStart) THEN " " ELSE l[i]])
 SpDoc == [i \in 1..Len(doc) |-> Respell(doc[i])]
+QuoteInDest(d) == \E k \in 1..Len(d.defs) : \E x \in 1..Len(d.defs[k].dest) : d.defs[k].dest[x] = "'"
 EmitDoc == Emit => PrintT(ToJson([src |-> Src(doc), html |-> HtmlOf(st),
-                                  skip |-> Ambig(Fin(CloseTo(st, 1)[1]).ch),
+                                  skip |-> (Ambig(Fin(CloseTo(st, 1)[1]).ch) \/ QuoteInDest(Fin(CloseTo(st, 1)[1]))),
                                   srcsp |-> IF HasTab(doc) /\ SpDoc # doc THEN Src(SpDoc) ELSE "",
                                   htmlsp |-> IF HasTab(doc) /\ SpDoc # doc THEN Render(Parse(SpDoc)) ELSE ""]))
 
